@@ -271,8 +271,10 @@ def normalize(raw):
         pn, cn = {n for n, t in pf}, {n for n, t in fields}
         gone = [(n, t) for n, t in pf if n not in cn]
         came = [(n, t) for n, t in fields if n not in pn]
-        if len(gone) != len(came) or [t for n, t in gone] != [t for n, t in came]:
+        if len(gone) != len(came):
             continue
+        if [t for n, t in gone] != [t for n, t in came] and len(gone) != 1:
+            continue      # (a single field that changed both its name and its type is still that field)
         m = {c[0]: p[0] for c, p in zip(came, gone)}
         if m and len(set(m.values())) == len(m):
             fmap[path] = m
